@@ -518,6 +518,29 @@ func c07Unit(name string, tier string) core.Unit {
 				r.AddScope(name, "whole_universe_list_length", int64(n))
 			}
 		}
+		// foreign spellings: every ordered pair over the characteristic spellings of ALL ecosystems
+		// (C15's routing fingerprint) through `sort`: a pair of valid versions must come back
+		// sorted by THIS ecosystem's order, a pair with an invalid member must be refused
+		for _, a := range c15Fingerprint {
+			for _, b := range c15Fingerprint {
+				va, vb := c.ver(a), c.ver(b)
+				r.Add("states", 1)
+				if va != nil && vb != nil {
+					c.sortList([]string{a, b})
+					continue
+				}
+				resp, err := srv.Call([]string{name, "sort", a, b})
+				r.Add("evaluations", 1)
+				if err != nil {
+					r.Internalf("cli server: %v", err)
+					return
+				}
+				if _, looksSorted := parseQuotedList(resp.Out); resp.Panic != "" || resp.Code != 1 || looksSorted {
+					r.Violate(core.Violation{Property: "C07", Scope: name, Kind: "invalid-input", Inputs: []string{"cli", a, b},
+						Expected: "exit 1, a diagnostic naming the invalid argument, no result list", Got: fmt.Sprintf("code=%d panic=%q out=%q", resp.Code, resp.Panic, resp.Out)})
+				}
+			}
+		}
 		// invalid inputs: every position of every list of length <= 3 over W1 replaced
 		bad := []string{"", "not a version !", "%%%"}
 		w := ws[0][:3]
@@ -641,7 +664,7 @@ func init() {
 				"distinct_nontrivial":           r.Counters["nontrivial"],
 			}
 		},
-		Rule:        "per ecosystem 5 (quick) / 8 (thorough) universes W of up to 6 versions derived from C01's universe (six classes spread over the order; Compare-equal textual variants plus singles; six neighbouring classes; one member per distinct spelling shape - prefixes, punctuation, upper case, long digit runs; six members of the most populated numeric core, i.e. pre/post/dev spellings of one release; thorough: lowest six, highest six, one with an exact duplicate): EVERY list of length 1..5 (quick) / 1..6 (thorough) over W - i.e. every permutation of every multiset - is sorted through the real CLI `sort` (overlay-built server around run()) and through the README idiom slices.SortFunc; plus deterministic families of length 13, 33, 64 (sorted, reversed, all rotations, organ-pipe, all-equal, two-value blocks); plus the whole clean universe (up to 1 500 versions) as one list from six deterministic input orders; plus every list of length <= 3 with each position replaced by an invalid string. distinct_nontrivial = distinct multisets whose sorted output has more than one class.",
+		Rule:        "per ecosystem 5 (quick) / 8 (thorough) universes W of up to 6 versions derived from C01's universe (six classes spread over the order; Compare-equal textual variants plus singles; six neighbouring classes; one member per distinct spelling shape - prefixes, punctuation, upper case, long digit runs; six members of the most populated numeric core, i.e. pre/post/dev spellings of one release; thorough: lowest six, highest six, one with an exact duplicate): EVERY list of length 1..5 (quick) / 1..6 (thorough) over W - i.e. every permutation of every multiset - is sorted through the real CLI `sort` (overlay-built server around run()) and through the README idiom slices.SortFunc; plus deterministic families of length 13, 33, 64 (sorted, reversed, all rotations, organ-pipe, all-equal, two-value blocks); plus the whole clean universe (up to 1 500 versions) as one list from six deterministic input orders; plus every list of length <= 3 with each position replaced by an invalid string; plus every ordered pair over 36 characteristic spellings of all ecosystems (sorted by this ecosystem's order if both are valid here, refused otherwise). distinct_nontrivial = distinct multisets whose sorted output has more than one class.",
 		Assumptions: []string{"versions in known-intransitive classes (C01 known findings) and alpm versions with '-' are not used as sort inputs", "'all permutations' beyond length 6 is replaced by the deterministic families"},
 	})
 }
